@@ -1387,10 +1387,10 @@ def c10(chk):
 
 def c11(chk):
     quick = chk.tier == "quick"
-    auto = {"set", "del", "emptyset"}
+    auto = {"set", "del", "emptyset", "emptydel"}
     late = has("lset", "ldel", "lget", "lkeys", "lcommit", "lrollback")
     l1_stage(chk, "ext_auto", dict(Keys=K2, MaxTx=0, MaxSteps=4 if quick else 5, Levels={"RC"}, Ops=auto), mode="both")
-    l1_stage(chk, "ext_tx", dict(Keys=K2, MaxTx=2, MaxSteps=4 if quick else 5, Levels={"RU", "RC", "RR", "SER"}, Ops=TXOPS | {"emptyset"}),
+    l1_stage(chk, "ext_tx", dict(Keys=K2, MaxTx=2, MaxSteps=4 if quick else 5, Levels={"RU", "RC", "RR", "SER"}, Ops=TXOPS | {"emptyset", "emptydel"}),
              mode="both", keep=has("begin"), sample=2500 if quick else 30000)
     l1_stage(chk, "ext_late_restart", dict(Keys=K1, MaxTx=2, MaxSteps=5, Levels={"RU", "RC", "RR"}, Ops={"set", "begin", "commit", "rollback", "late", "gc", "reopen"}),
              mode="both", keep=late, sample=1500 if quick else 20000)
